@@ -144,6 +144,10 @@ class NetCDFWrite(IOWrite):
                     # given role.
                     return ncdim
 
+        # Replace spaces before testing for uniqueness, so that the
+        # name that is tested is the name that is used
+        base = base.replace(" ", "_")
+
         if base in existing_names:
             counter = g.setdefault("count_" + base, 1)
 
@@ -153,8 +157,6 @@ class NetCDFWrite(IOWrite):
                 ncvar = f"{base}_{counter}"
         else:
             ncvar = base
-
-        ncvar = ncvar.replace(" ", "_")
 
         ncvar_names.add(ncvar)
 
